@@ -147,10 +147,10 @@ Proof.
   exists f, r. split; [exact E|]. unfold bind in H. injection H as <-. reflexivity.
 Qed.
 
-Theorem rewrite_scope body out :
-  soks dcl (map (pass0 400) body) = true -> rewrite body = OK out -> ol [] out = ol [] body.
+Theorem rewrite_scope body out env :
+  soks dcl (map (pass0 400) body) = true -> rewrite body = OK out -> ol env out = ol env body.
 Proof.
   intros Hs H. destruct (rewrite_inv _ _ H) as [f [r [Hr ->]]].
-  rewrite pass3_body_scope, (pass2_scope dcl _ _ _ Hs Hr). apply sp_list. apply pass0_sp.
+  rewrite pass3_body_scope, (pass2_scope dcl _ _ _ env Hs Hr). apply sp_list. apply pass0_sp.
 Qed.
 End S.
